@@ -313,6 +313,9 @@ func (e *episode) injectAs(id [32]byte, values []uint64) []*wcoin {
 //	"input-over"     one input of MAX_MONEY+1                          → input values out of range
 //	"input-2^63"     one input of 2^63                                 → the same
 //	"input-sum"      two inputs of MAX_MONEY and 1..x                  → running input total out of range
+//	"input-wrap"     inputs x ≤ MAX_MONEY and 2^64−x+y (in this order): each running total is in range — x, then y after
+//	                 the wrap of the 64-bit sum — only the SECOND COIN'S OWN VALUE is not; outputs ≤ y. Separates the
+//	                 disjunct `tout.Value > MAX_MONEY` from `txinsum > MAX_MONEY`          → input values out of range
 //	"input-max-ok"   one input of MAX_MONEY, one output of MAX_MONEY   → valid
 //	"input-sum-ok"   inputs MAX_MONEY-x and x                          → valid (total exactly MAX_MONEY)
 //	"fee-over"       two transactions, fees MAX_MONEY and 1..x         → accumulated fee out of range
@@ -352,6 +355,14 @@ func kRich(how string) kindFn {
 				cs[0], cs[1] = cs[1], cs[0]
 			}
 			txs = []*btc.Tx{spend(cs, 1000)}
+		case "input-wrap":
+			small := []uint64{10000 + x, maxMoney - x, maxMoney}[e.g.Intn(3)]
+			y := uint64(1000 + e.g.Intn(5000))               // y < small
+			cs := e.inject([]uint64{small, -(small - y)}) // second = 2^64 − small + y > MAX_MONEY; small + second ≡ y (mod 2^64)
+			if cs == nil {
+				return nil
+			}
+			txs = []*btc.Tx{spend(cs, uint64(e.g.Pick(0, 1000, int(y))))}
 		case "input-max-ok":
 			cs := e.inject([]uint64{maxMoney})
 			if cs == nil {
@@ -398,6 +409,7 @@ func extraKinds() []kindEntry {
 		{"rich-input-over", kRich("input-over"), 1, false},
 		{"rich-input-2^63", kRich("input-2^63"), 1, false},
 		{"rich-input-sum", kRich("input-sum"), 1, false},
+		{"rich-input-wrap", kRich("input-wrap"), 1, false},
 		{"rich-input-max-ok", kRich("input-max-ok"), 1, false},
 		{"rich-input-sum-ok", kRich("input-sum-ok"), 1, false},
 		{"rich-fee-over", kRich("fee-over"), 1, false},
